@@ -173,9 +173,9 @@ impl<Front: SocketHandler> ConnectionH1<Front> {
             !kawa.is_terminated(),
             "terminate_close_delimited must not run on an already-terminated kawa"
         );
-        if kawa.body_size == kawa::BodySize::Chunked {
+        if kawa.body_size != kawa::BodySize::Empty {
             warn!(
-                "{} H1 backend EOF mid-chunked response on stream {}: emitting RST_STREAM",
+                "{} H1 backend EOF before the end of a chunked or Content-Length response on stream {}: emitting RST_STREAM",
                 log_module_context!(),
                 stream_id
             );
